@@ -5,12 +5,13 @@ CONSTANTS
   Role = "server"
   WBuf = 256
   Shapes <- S_nwLL_wmL
-  Ctl <- C_ping2_close_pong2
+  Ctl <- C_mixS
   Closer = TRUE
   ControlTakesLock = TRUE
   FlushAtomic = TRUE
   LatchChecked = TRUE
   CloseLatches = TRUE
+  TimeoutReleases = FALSE
   Fifo = TRUE
   OnlyBad = FALSE
   Family = "sim"
